@@ -427,6 +427,12 @@ def pow2_bin(body, rv, facts, depth, seen, at=None, needs=None):
     if op == "Shl":
         ok, d = pow2(body, rv["a"], facts, depth + 1, seen, at=at, needs=needs)
         return ok and rv["b"].get("int") is not None, "(%s) << %s" % (d, rv["b"].get("int"))
+    if op == "Mul":
+        for x, y in ((rv["a"], rv["b"]), (rv["b"], rv["a"])):
+            k = y.get("int")
+            if k is not None and k > 0 and k & (k - 1) == 0:
+                ok, d = pow2(body, x, facts, depth + 1, seen, at=at, needs=needs)
+                return ok, "(%s) * %s" % (d, k)
     return False, "%s arithmetic" % op
 
 
@@ -512,19 +518,26 @@ def rule_q4(ctx, facts):
     idom_ok = lambda a, b: dominates(tr, Point(a, 0), Point(b, 0), unwind=False)
     for blk in range(len(tr.blocks)):
         cd = cond_of(tr, blk)
-        if not cd or cd["kind"] != "cmp" or cd["op"] not in ("Eq", "Ne"):
+        if not cd or cd["kind"] != "cmp":
             continue
         la, lb = op_local(cd["a"]), op_local(cd["b"])
         fa, fb = ev.operand(cd["a"]), ev.operand(cd["b"])
-        side = None
-        if la in carriers and fb is not TOP and fb.is_const() and fb.c == 0:
-            side = "a"
-        elif lb in carriers and fa is not TOP and fa.is_const() and fa.c == 0:
-            side = "b"
-        if side is None:
+        # the bit is unsigned: `x == 0`, `x < 1`, `x <= 0` say "zero"; `x != 0`, `x >= 1`, `x > 0` say "set" (either operand order)
+        op, k = cd["op"], None
+        if la in carriers and fb is not TOP and fb.is_const():
+            k = fb.c
+        elif lb in carriers and fa is not TOP and fa.is_const():
+            k = fa.c
+            op = {"Lt": "Gt", "Le": "Ge", "Gt": "Lt", "Ge": "Le"}.get(op, op)
+        if k is None:
+            continue
+        if (op, k) in (("Eq", 0), ("Lt", 1), ("Le", 0)):
+            zero, nonzero = cd["true"], cd["false"]
+        elif (op, k) in (("Ne", 0), ("Ge", 1), ("Gt", 0)):
+            zero, nonzero = cd["false"], cd["true"]
+        else:
             continue
         n_tests += 1
-        zero, nonzero = (cd["true"], cd["false"]) if cd["op"] == "Eq" else (cd["false"], cd["true"])
         for tgt, acc in ((zero, low), (nonzero, high)):
             other = nonzero if tgt == zero else zero
             for b2 in range(len(tr.blocks)):
@@ -628,15 +641,9 @@ def rule_q5(ctx, facts):
                 ok = False
                 why.append("returns the constant %s" % f.c)
             else:
-                # 0 only where the counter was seen negative (or zero)
-                g = False
-                for blk in range(len(b.blocks)):
-                    cd = cond_of(b, blk)
-                    if cd and cd["kind"] == "cmp" and cd["op"] in ("Lt", "Le"):
-                        a, bb = ev.operand(cd["a"]), ev.operand(cd["b"])
-                        if a is not TOP and bb is not TOP and any(a == Aff.sym(("call", l.b)) for l in loads) and bb.is_const() and bb.c == 0 \
-                                and dominated_by_edge(b, pt, [(blk, cd["true"])]):
-                            g = True
+                # 0 only where the counter was seen to be <= 0 (any spelling of the comparison)
+                from .affine import le_at
+                g = any(le_at(b, pt, Aff.sym(("call", l.b)), 0) is not None for l in loads)
                 if not g:
                     ok = False
                     why.append("returns 0 on a path where the counter was not seen to be <= 0")
@@ -649,9 +656,15 @@ def rule_q5(ctx, facts):
     lc = [c for c in e.calls if c.resolved == b.id]
     ok = False
     for pt, kind, data in e.defs.get(0, []):
-        if kind == "assign" and data["rv"].get("bin") in ("Eq", "Le"):
+        if kind == "assign" and data["rv"].get("bin") in ("Eq", "Le", "Lt", "Ge", "Gt"):
+            op = data["rv"]["bin"]
             x, y = ev.operand(data["rv"]["a"]), ev.operand(data["rv"]["b"])
-            if x is not TOP and y is not TOP and y.is_const() and y.c == 0 and any(x == Aff.sym(("call", c.b)) for c in lc):
+            if x is TOP or y is TOP:
+                continue
+            if x.is_const() and not y.is_const():
+                x, y, op = y, x, {"Lt": "Gt", "Le": "Ge", "Gt": "Lt", "Ge": "Le"}.get(op, op)
+            # len() is unsigned: len == 0, len <= 0, len < 1 are one predicate
+            if y.is_const() and any(x == Aff.sym(("call", c.b)) for c in lc) and ((op in ("Eq", "Le") and y.c == 0) or (op == "Lt" and y.c == 1)):
                 ok = True
     ctx.inst("Q5", e, "is_empty() is len() == 0", e.span, ok, "len() == 0" if ok else "is_empty is not defined as len() == 0: it can disagree with len at a quiescent point")
 
